@@ -40,7 +40,20 @@ type Tap struct {
 	delivered int
 	// OnDelivered is called synchronously in the writer's goroutine (no
 	// link lock held) after the n-th envelope (both directions) was handed over.
-	OnDelivered func(n int, r *Rec)
+	OnDelivered func(n int, r *Rec) // use SetOnDelivered once envelopes may be flowing
+}
+
+// SetOnDelivered installs the callback (safe while writers are active).
+func (t *Tap) SetOnDelivered(f func(n int, r *Rec)) {
+	t.mu.Lock()
+	t.OnDelivered = f
+	t.mu.Unlock()
+}
+
+func (t *Tap) onDelivered() func(n int, r *Rec) {
+	t.mu.Lock()
+	defer t.mu.Unlock()
+	return t.OnDelivered
 }
 
 // add logs the envelope as delivered *before* it is handed over (the writer holds the
@@ -171,6 +184,13 @@ func (e *End) Discard() {
 	e.mu.Unlock()
 }
 
+// SetOnRead installs the OnRead callback (safe while a reader is active).
+func (e *End) SetOnRead(f func(n int)) {
+	e.mu.Lock()
+	e.OnRead = f
+	e.mu.Unlock()
+}
+
 func (e *End) ReadFailed() bool {
 	select {
 	case <-e.rfail:
@@ -195,8 +215,11 @@ func (e *End) Read(ctx context.Context) (*Rpc, error) {
 	} else {
 		e.mu.Unlock()
 	}
-	if e.OnRead != nil {
-		e.OnRead(n)
+	e.mu.Lock()
+	onRead := e.OnRead
+	e.mu.Unlock()
+	if onRead != nil {
+		onRead(n)
 	}
 	select {
 	case <-e.rfail:
@@ -285,7 +308,7 @@ func (e *End) Write(ctx context.Context, rpc *Rpc) error {
 		case e.l.ch[dir] <- msg:
 			n := e.l.Tap.markDelivered(rec)
 			<-sem
-			if cb := e.l.Tap.OnDelivered; cb != nil {
+			if cb := e.l.Tap.onDelivered(); cb != nil {
 				cb(n, rec)
 			}
 			return nil
@@ -308,7 +331,7 @@ func (e *End) Write(ctx context.Context, rpc *Rpc) error {
 	}
 	n := e.l.Tap.markDelivered(rec)
 	<-sem
-	if cb := e.l.Tap.OnDelivered; cb != nil {
+	if cb := e.l.Tap.onDelivered(); cb != nil {
 		cb(n, rec)
 	}
 	return nil
